@@ -230,6 +230,9 @@ Qed.
 Lemma mem_t_app t l x : mem_t t (l ++ [x]) = mem_t t l || mem_t t [x].
 Proof. unfold mem_t. rewrite existsb_app. reflexivity. Qed.
 
+Lemma stale_hs_length l : length (stale_hs l) = length l.
+Proof. unfold stale_hs. apply map_length. Qed.
+
 Lemma td_inv_conn cfg s c c' e : td_inv cfg c -> conn_step cfg s c = Some (c', e) -> td_inv cfg c'.
 Proof.
   intros H Hs. unfold conn_step in Hs.
@@ -267,6 +270,8 @@ Proof.
         -- inversion Hs; subst. eapply td_inv_enter; [exact H|rewrite Epc; exact I|reflexivity..].
         -- inversion Hs; subst. exact H.
       * inversion Hs; subst. td_start cfg c H. unfold td_inv, done_of. rewrite Epc in *. cbn in *. repeat split; auto.
+      * inversion Hs; subst. td_start cfg c H. unfold td_inv, done_of. rewrite Epc in *. cbn in *.
+        repeat split; auto; destruct (after_plain (input c)) as [|[]]; cbn; rewrite ?stale_hs_length; auto.
       * inversion Hs; subst. td_start cfg c H. unfold td_inv, done_of. rewrite Epc in *. cbn in *. repeat split; auto.
   - (* CTeardown *)
     td_start cfg c H. rewrite Epc in *. destruct Hsuf as [Hsuf Hlen].
@@ -460,6 +465,7 @@ Proof.
       destruct h.
       * inversion Hs; subst. unfold num_inv. fields. num_fin Hub Hst.
       * destruct (recovery cfg); inversion Hs; subst; unfold num_inv; fields; try rewrite Epc; num_fin Hub Hst.
+      * inversion Hs; subst. unfold num_inv. fields. num_fin Hub Hst.
       * inversion Hs; subst. unfold num_inv. fields. num_fin Hub Hst.
       * inversion Hs; subst. unfold num_inv. fields. num_fin Hub Hst.
   - destruct todo as [|t rest].
@@ -1302,6 +1308,7 @@ Proof.
   - reflexivity.
   - unfold can_write. rewrite Hi. apply orb_true_iff. left. apply orb_true_r.
   - destruct (after_plain (input c)) as [|[| |] ?]; rewrite ?Hi; reflexivity.
+  - unfold can_write. rewrite Hi. apply orb_true_iff. left. apply orb_true_r.
 Qed.
 
 (* an untracked connection (late untrack) has only OnClose / Done left *)
